@@ -84,7 +84,56 @@ FULL_TEMPLATE = list(TEMPLATE)
 SHORT_TEMPLATE = [('lit', b'/a'), ('path', 'v1'), ('query', b'k', 'q1')]
 
 
+ESCAPING_ENTRY_POINTS = {'new', 'push_literal', 'push_path_parameter', 'push_query_parameter', 'push_optional_query_parameter', 'push_list_query_parameter',
+                         'push_set_query_parameter', 'build'}
+
+
+def battery_generated():
+    from checks import c04
+    ops = [{'op': 'loopback_gen', 'endpoint': 'g5', 'tok': 'a/b+c=', 'qt': 'x+/=='}, {'op': 'loopback_gen', 'endpoint': 'g5', 'tok': '+', 'qt': '/'},
+           {'op': 'loopback_gen', 'endpoint': 'g1', 'path_arg': -1, 'query_arg': b'a&b=c#?'.hex(), 'header_arg': 0, 'token': 't'},
+           {'op': 'loopback_gen', 'endpoint': 'g2', 'p_arg': b'/%2F?'.hex(), 'opt_arg': None, 'lst_arg': [], 'bar_arg': None, 'token': 't'}]
+    out = []
+    for o, r in zip(ops, replay(ops)):
+        ok, why = c04.native_verdict(o, r)
+        if not ok:
+            out.append(f'{o}: {why}')
+    return out
+
+
+def run_generated_discipline(rep):
+    """the generated clients (real conjure-codegen output for gen-crates/service, every argument position incl. bearer tokens in the
+    path and query) assemble their URI only through the UriBuilder entry points decided above (each escapes its value)"""
+    import re as _re
+    from checks import c04, endpoints as ep
+    prog = ep.harness_program('gen-crates/service', c04.GCRATE, ['conjure_serde'])
+    n = 0
+    for k, f in prog.fns.items():
+        if not k.startswith(c04.GCRATE + '::') or 'Client<' not in f.header:
+            continue
+        called = set()
+        for stmts, term in f.blocks.values():
+            for mm in _re.finditer(r'UriBuilder::(\w+)', term):
+                called.add(mm.group(1))
+        if not called:
+            continue
+        n += 1
+        rep.functions_encoded.append(k)
+        extra = called - ESCAPING_ENTRY_POINTS
+        rep.query(f'generated:{k.split("::")[-1]}:uri-built-through-escaping-entry-points', 'unsat' if not extra else 'sat', 0.0, called=sorted(called))
+        if extra:
+            rep.structural('C07:generated-entry-points', f'generated client method {k} builds its URI through UriBuilder::{sorted(extra)}, which this check does not know as escaping entry points',
+                           {'fn': k, 'called': sorted(called)}, battery_generated)
+    if not n:
+        rep.inconc('vacuity: no generated client method uses UriBuilder')
+    for fail in battery_generated():
+        rep.violation('C07:native:generated', f'native twin: {fail}', {'native': fail})
+    rep.replayed += 4
+
+
 def run(rep, tier):
+    with rep.part('generated clients use the escaping entry points'):
+        run_generated_discipline(rep)
     global TEMPLATE
     prog = program(['conjure_http'])
     fns = {n: find_fn(prog, n, inpath='::uri_builder::') for n in ('new', 'push_literal', 'push_path_parameter_raw', 'push_query_parameter_raw', 'build')}
